@@ -25,6 +25,122 @@ where
         Cv::<K>::rics(c).enc()
     }
 
+    // ---- op bodies: the calls into the real library, shared by the generator and the replay mode
+
+    pub fn op_new_ff(sources: &RFF, values: &RFF) -> Sx {
+        opt(IndexedCoproduct::new(Cv::<K>::ff(sources), Cv::<K>::ff(values)).map(|x| Self::ef(&x)))
+    }
+    pub fn op_new_sf(sources: &RFF, values: &[usize]) -> Sx {
+        opt(IndexedCoproduct::new(Cv::<K>::ff(sources), Cv::<K>::sf(values)).map(|x| Self::es(&x)))
+    }
+    pub fn op_from_semifinite_ff(sizes: &[usize], values: &RFF) -> Sx {
+        opt(IndexedCoproduct::from_semifinite(SemifiniteFunction(K::arr(sizes.to_vec())), Cv::<K>::ff(values))
+            .map(|x| Self::ef(&x)))
+    }
+    pub fn op_from_semifinite_sf(sizes: &[usize], values: &[usize]) -> Sx {
+        opt(IndexedCoproduct::from_semifinite(SemifiniteFunction(K::arr(sizes.to_vec())), Cv::<K>::sf(values))
+            .map(|x| Self::es(&x)))
+    }
+    pub fn op_singleton_ff(a: &RFF) -> Sx {
+        ok(Self::ef(&IndexedCoproduct::singleton(Cv::<K>::ff(a))))
+    }
+    pub fn op_elements_ff(a: &RFF) -> Sx {
+        ok(Self::ef(&IndexedCoproduct::elements(Cv::<K>::ff(a))))
+    }
+    pub fn op_singleton_sf(a: &[usize]) -> Sx {
+        ok(Self::es(&IndexedCoproduct::singleton(Cv::<K>::sf(a))))
+    }
+    pub fn op_elements_sf(a: &[usize]) -> Sx {
+        ok(Self::es(&IndexedCoproduct::elements(Cv::<K>::sf(a))))
+    }
+    pub fn op_initial(t: usize) -> Sx {
+        ok(Self::ef(&IndexedCoproduct::<K, FF<K>>::initial(t)))
+    }
+    pub fn op_len(a: &RICF) -> Sx {
+        ok(n(Cv::<K>::icf(a).len()))
+    }
+    pub fn op_flatmap_sources(a: &RICF, bb: &RICS) -> Sx {
+        ok(Self::es(&Cv::<K>::icf(a).flatmap_sources(&Cv::<K>::ics(bb))))
+    }
+    pub fn op_flatmap_sources_sf(a: &RICS, bb: &RICS) -> Sx {
+        ok(Self::es(&Cv::<K>::ics(a).flatmap_sources(&Cv::<K>::ics(bb))))
+    }
+    pub fn op_tensor(a: &RICF, bb: &RICF) -> Sx {
+        ok(Self::ef(&Cv::<K>::icf(a).tensor(&Cv::<K>::icf(bb))))
+    }
+    pub fn op_coproduct_ff(a: &RICF, bb: &RICF) -> Sx {
+        opt(Cv::<K>::icf(a).coproduct(&Cv::<K>::icf(bb)).map(|x| Self::ef(&x)))
+    }
+    pub fn op_coproduct_sf(a: &RICS, bb: &RICS) -> Sx {
+        opt(Cv::<K>::ics(a).coproduct(&Cv::<K>::ics(bb)).map(|x| Self::es(&x)))
+    }
+    pub fn op_map_values(a: &RICF, xx: &RFF) -> Sx {
+        opt(Cv::<K>::icf(a).map_values(&Cv::<K>::ff(xx)).map(|y| Self::ef(&y)))
+    }
+    pub fn op_map_semifinite(a: &RICF, ll_: &[usize]) -> Sx {
+        opt(Cv::<K>::icf(a).map_semifinite(&Cv::<K>::sf(ll_)).map(|y| Self::es(&y)))
+    }
+    pub fn op_flatmap(a: &RICF, bb: &RICF) -> Sx {
+        ok(Self::ef(&Cv::<K>::icf(a).flatmap(&Cv::<K>::icf(bb))))
+    }
+    pub fn op_map_indexes_ff(a: &RICF, xx: &RFF) -> Sx {
+        opt(Cv::<K>::icf(a).map_indexes(&Cv::<K>::ff(xx)).map(|y| Self::ef(&y)))
+    }
+    pub fn op_indexed_values_ff(a: &RICF, xx: &RFF) -> Sx {
+        opt(Cv::<K>::icf(a).indexed_values(&Cv::<K>::ff(xx)).map(|y| Cv::<K>::rff(&y).enc()))
+    }
+    pub fn op_map_indexes_sf(a: &RICS, xx: &RFF) -> Sx {
+        opt(Cv::<K>::ics(a).map_indexes(&Cv::<K>::ff(xx)).map(|y| Self::es(&y)))
+    }
+    pub fn op_indexed_values_sf(a: &RICS, xx: &RFF) -> Sx {
+        opt(Cv::<K>::ics(a).indexed_values(&Cv::<K>::ff(xx)).map(|y| l(&Cv::<K>::rsf(&y))))
+    }
+    pub fn op_iter_trace_ff(a: &RICF) -> Sx {
+        let mut it = Cv::<K>::icf(a).into_iter();
+        let mut tr = vec![];
+        // the count reported before the first step must equal the number of slices
+        let before = it.len();
+        let (lo, hi) = it.size_hint();
+        assert!(lo == before && hi == Some(before));
+        while let Some(f) = it.next() {
+            let (lo, hi) = it.size_hint();
+            assert!(lo == it.len() && hi == Some(lo));
+            tr.push(list(vec![l(&K::unidx(&f.table)), n(it.len())]));
+        }
+        assert!(it.next().is_none());
+        assert!(tr.len() == before);
+        ok(list(tr))
+    }
+    pub fn op_iter_trace_sf(a: &RICS) -> Sx {
+        let mut it = Cv::<K>::ics(a).into_iter();
+        let mut tr = vec![];
+        let before = it.len();
+        while let Some(f) = it.next() {
+            let (lo, hi) = it.size_hint();
+            assert!(lo == it.len() && hi == Some(lo));
+            tr.push(list(vec![l(&K::unarr(&f.0)), n(it.len())]));
+        }
+        assert!(tr.len() == before);
+        ok(list(tr))
+    }
+    pub fn op_ops_new(x1: &[usize], a1: &RICS, b1: &RICS) -> Sx {
+        opt(Operations::<K, usize, usize>::new(Cv::<K>::sf(x1), Cv::<K>::ics(a1), Cv::<K>::ics(b1))
+            .map(|o| list(vec![l(&Cv::<K>::rsf(&o.x)), Self::es(&o.a), Self::es(&o.b)])))
+    }
+    pub fn op_ops_singleton(lab: usize, sa1: &[usize], sb1: &[usize]) -> Sx {
+        let o = Operations::<K, usize, usize>::singleton(lab, Cv::<K>::sf(sa1), Cv::<K>::sf(sb1));
+        ok(list(vec![l(&Cv::<K>::rsf(&o.x)), Self::es(&o.a), Self::es(&o.b)]))
+    }
+    /// the per-operation view exists for the Vec backend only
+    pub fn op_ops_iter(x1: &[usize], a1: &RICS, b1: &RICS) -> Sx {
+        let o = Cv::<VecKind>::ops(x1, a1, b1);
+        ok(list(o.iter().map(|(lab, s, t)| list(vec![n(*lab), l(s), l(t)])).collect()))
+    }
+    pub fn op_slice_iter(a1: &RICS) -> Sx {
+        let ic = Cv::<VecKind>::ics(a1);
+        ok(list(ic.iter().map(|s| l(s)).collect()))
+    }
+
     fn some_icf(c: &mut Ctx, m: usize, target: usize) -> RICF {
         if c.rng.chance(1, 8) {
             c.knob("ic:malformed");
@@ -49,44 +165,34 @@ where
                     let t = c.rng.range(0, m);
                     let r = Self::some_icf(c, m, t);
                     let a = r.clone();
-                    c.emit("ic.new_ff", vec![r.sources.enc(), r.values.enc()], move || {
-                        opt(IndexedCoproduct::new(Cv::<K>::ff(&a.sources), Cv::<K>::ff(&a.values)).map(|x| Self::ef(&x)))
-                    });
+                    c.emit("ic.new_ff", vec![r.sources.enc(), r.values.enc()], move || Self::op_new_ff(&a.sources, &a.values));
                     let rs = RIC { sources: r.sources.clone(), values: r.values.table.clone() };
                     let a = rs.clone();
-                    c.emit("ic.new_sf", vec![rs.sources.enc(), l(&rs.values)], move || {
-                        opt(IndexedCoproduct::new(Cv::<K>::ff(&a.sources), Cv::<K>::sf(&a.values)).map(|x| Self::es(&x)))
-                    });
+                    c.emit("ic.new_sf", vec![rs.sources.enc(), l(&rs.values)], move || Self::op_new_sf(&a.sources, &a.values));
                     let a = r.clone();
-                    c.emit("ic.from_semifinite_ff", vec![l(&r.sources.table), r.values.enc()], move || {
-                        opt(IndexedCoproduct::from_semifinite(SemifiniteFunction(K::arr(a.sources.table.clone())), Cv::<K>::ff(&a.values))
-                            .map(|x| Self::ef(&x)))
-                    });
+                    c.emit("ic.from_semifinite_ff", vec![l(&r.sources.table), r.values.enc()], move || Self::op_from_semifinite_ff(&a.sources.table, &a.values));
                     let a = rs.clone();
-                    c.emit("ic.from_semifinite_sf", vec![l(&rs.sources.table), l(&rs.values)], move || {
-                        opt(IndexedCoproduct::from_semifinite(SemifiniteFunction(K::arr(a.sources.table.clone())), Cv::<K>::sf(&a.values))
-                            .map(|x| Self::es(&x)))
-                    });
+                    c.emit("ic.from_semifinite_sf", vec![l(&rs.sources.table), l(&rs.values)], move || Self::op_from_semifinite_sf(&a.sources.table, &a.values));
                 }
                 2 => {
                     let v = gen::ff(&mut c.rng, m, m);
                     let a = v.clone();
-                    c.emit("ic.singleton_ff", vec![v.enc()], move || ok(Self::ef(&IndexedCoproduct::singleton(Cv::<K>::ff(&a)))));
+                    c.emit("ic.singleton_ff", vec![v.enc()], move || Self::op_singleton_ff(&a));
                     let a = v.clone();
-                    c.emit("ic.elements_ff", vec![v.enc()], move || ok(Self::ef(&IndexedCoproduct::elements(Cv::<K>::ff(&a)))));
+                    c.emit("ic.elements_ff", vec![v.enc()], move || Self::op_elements_ff(&a));
                     let lab = v.table.clone();
                     let a = lab.clone();
-                    c.emit("ic.singleton_sf", vec![l(&lab)], move || ok(Self::es(&IndexedCoproduct::singleton(Cv::<K>::sf(&a)))));
+                    c.emit("ic.singleton_sf", vec![l(&lab)], move || Self::op_singleton_sf(&a));
                     let a = lab.clone();
-                    c.emit("ic.elements_sf", vec![l(&lab)], move || ok(Self::es(&IndexedCoproduct::elements(Cv::<K>::sf(&a)))));
+                    c.emit("ic.elements_sf", vec![l(&lab)], move || Self::op_elements_sf(&a));
                     let t = c.rng.size(m);
-                    c.emit("ic.initial", vec![n(t)], move || ok(Self::ef(&IndexedCoproduct::<K, FF<K>>::initial(t))));
+                    c.emit("ic.initial", vec![n(t)], move || Self::op_initial(t));
                 }
                 3 => {
                     let t = c.rng.range(0, m);
                     let r = Self::some_icf(c, m, t);
                     let a = r.clone();
-                    c.emit("ic.len", vec![r.enc()], move || ok(n(Cv::<K>::icf(&a).len())));
+                    c.emit("ic.len", vec![r.enc()], move || Self::op_len(&a));
                 }
                 4 | 5 => {
                     // flatmap_sources: total length of self = number of segments of other
@@ -96,33 +202,25 @@ where
                     let k = if c.rng.chance(1, 8) { total + 1 } else { total };
                     let other = RICS::from_segs(&gen::segs_n(&mut c.rng, k, 3, 5));
                     let (a, bb) = (r.clone(), other.clone());
-                    c.emit("ic.flatmap_sources", vec![r.enc(), other.enc()], move || {
-                        ok(Self::es(&Cv::<K>::icf(&a).flatmap_sources(&Cv::<K>::ics(&bb))))
-                    });
+                    c.emit("ic.flatmap_sources", vec![r.enc(), other.enc()], move || Self::op_flatmap_sources(&a, &bb));
                     let rs = RIC { sources: r.sources.clone(), values: r.values.table.clone() };
                     let (a, bb) = (rs.clone(), other.clone());
-                    c.emit("ic.flatmap_sources_sf", vec![rs.enc(), other.enc()], move || {
-                        ok(Self::es(&Cv::<K>::ics(&a).flatmap_sources(&Cv::<K>::ics(&bb))))
-                    });
+                    c.emit("ic.flatmap_sources_sf", vec![rs.enc(), other.enc()], move || Self::op_flatmap_sources_sf(&a, &bb));
                 }
                 6 | 7 => {
                     let (t1, t2) = (c.rng.range(0, m), c.rng.range(0, m));
                     let r1 = Self::some_icf(c, m, t1);
                     let r2 = Self::some_icf(c, m, t2);
                     let (a, bb) = (r1.clone(), r2.clone());
-                    c.emit("ic.tensor", vec![r1.enc(), r2.enc()], move || ok(Self::ef(&Cv::<K>::icf(&a).tensor(&Cv::<K>::icf(&bb)))));
+                    c.emit("ic.tensor", vec![r1.enc(), r2.enc()], move || Self::op_tensor(&a, &bb));
                     // coproduct needs a common codomain (sometimes not)
                     let r3 = if c.rng.chance(1, 6) { r2.clone() } else { gen::icf(&mut c.rng, m, 3, r1.values.target) };
                     let (a, bb) = (r1.clone(), r3.clone());
-                    c.emit("ic.coproduct_ff", vec![r1.enc(), r3.enc()], move || {
-                        opt(Cv::<K>::icf(&a).coproduct(&Cv::<K>::icf(&bb)).map(|x| Self::ef(&x)))
-                    });
+                    c.emit("ic.coproduct_ff", vec![r1.enc(), r3.enc()], move || Self::op_coproduct_ff(&a, &bb));
                     let s1 = RIC { sources: r1.sources.clone(), values: r1.values.table.clone() };
                     let s2 = RIC { sources: r2.sources.clone(), values: r2.values.table.clone() };
                     let (a, bb) = (s1.clone(), s2.clone());
-                    c.emit("ic.coproduct_sf", vec![s1.enc(), s2.enc()], move || {
-                        opt(Cv::<K>::ics(&a).coproduct(&Cv::<K>::ics(&bb)).map(|x| Self::es(&x)))
-                    });
+                    c.emit("ic.coproduct_sf", vec![s1.enc(), s2.enc()], move || Self::op_coproduct_sf(&a, &bb));
                 }
                 8 | 9 => {
                     let t = c.rng.range(0, m);
@@ -131,14 +229,10 @@ where
                     let xs = if c.rng.chance(1, 6) { t + 1 } else { t };
                     let x = gen::ff_from_to(&mut c.rng, xs, xt);
                     let (a, xx) = (r.clone(), x.clone());
-                    c.emit("ic.map_values", vec![r.enc(), x.enc()], move || {
-                        opt(Cv::<K>::icf(&a).map_values(&Cv::<K>::ff(&xx)).map(|y| Self::ef(&y)))
-                    });
+                    c.emit("ic.map_values", vec![r.enc(), x.enc()], move || Self::op_map_values(&a, &xx));
                     let lab = c.rng.vec_below(xs, 5);
                     let (a, ll_) = (r.clone(), lab.clone());
-                    c.emit("ic.map_semifinite", vec![r.enc(), l(&lab)], move || {
-                        opt(Cv::<K>::icf(&a).map_semifinite(&Cv::<K>::sf(&ll_)).map(|y| Self::es(&y)))
-                    });
+                    c.emit("ic.map_semifinite", vec![r.enc(), l(&lab)], move || Self::op_map_semifinite(&a, &ll_));
                 }
                 10 | 11 | 12 => {
                     // flatmap: self : A -> B*, other : B -> C*
@@ -148,9 +242,7 @@ where
                     let k = if c.rng.chance(1, 8) { bsz + 1 } else { bsz };
                     let other = RICF::from_segs(&gen::segs_n(&mut c.rng, k, 3, csz), csz);
                     let (a, bb) = (r.clone(), other.clone());
-                    c.emit("ic.flatmap", vec![r.enc(), other.enc()], move || {
-                        ok(Self::ef(&Cv::<K>::icf(&a).flatmap(&Cv::<K>::icf(&bb))))
-                    });
+                    c.emit("ic.flatmap", vec![r.enc(), other.enc()], move || Self::op_flatmap(&a, &bb));
                 }
                 13 | 14 | 15 | 16 => {
                     // re-indexing along x : X -> segments (non-injective, empty)
@@ -166,58 +258,24 @@ where
                         c.knob("ic:reindex-non-injective");
                     }
                     let (a, xx) = (r.clone(), x.clone());
-                    c.emit("ic.map_indexes_ff", vec![r.enc(), x.enc()], move || {
-                        opt(Cv::<K>::icf(&a).map_indexes(&Cv::<K>::ff(&xx)).map(|y| Self::ef(&y)))
-                    });
+                    c.emit("ic.map_indexes_ff", vec![r.enc(), x.enc()], move || Self::op_map_indexes_ff(&a, &xx));
                     let (a, xx) = (r.clone(), x.clone());
-                    c.emit("ic.indexed_values_ff", vec![r.enc(), x.enc()], move || {
-                        opt(Cv::<K>::icf(&a).indexed_values(&Cv::<K>::ff(&xx)).map(|y| Cv::<K>::rff(&y).enc()))
-                    });
+                    c.emit("ic.indexed_values_ff", vec![r.enc(), x.enc()], move || Self::op_indexed_values_ff(&a, &xx));
                     let rs = RIC { sources: r.sources.clone(), values: r.values.table.clone() };
                     let (a, xx) = (rs.clone(), x.clone());
-                    c.emit("ic.map_indexes_sf", vec![rs.enc(), x.enc()], move || {
-                        opt(Cv::<K>::ics(&a).map_indexes(&Cv::<K>::ff(&xx)).map(|y| Self::es(&y)))
-                    });
+                    c.emit("ic.map_indexes_sf", vec![rs.enc(), x.enc()], move || Self::op_map_indexes_sf(&a, &xx));
                     let (a, xx) = (rs.clone(), x.clone());
-                    c.emit("ic.indexed_values_sf", vec![rs.enc(), x.enc()], move || {
-                        opt(Cv::<K>::ics(&a).indexed_values(&Cv::<K>::ff(&xx)).map(|y| l(&Cv::<K>::rsf(&y))))
-                    });
+                    c.emit("ic.indexed_values_sf", vec![rs.enc(), x.enc()], move || Self::op_indexed_values_sf(&a, &xx));
                 }
                 17 | 18 | 19 => {
                     // iterators: every slice once, in order, with the exact remaining count
                     let t = c.rng.range(1, m);
                     let r = gen::icf(&mut c.rng, m + 1, 3, t);
                     let a = r.clone();
-                    c.emit("ic.iter_trace_ff", vec![r.enc()], move || {
-                        let mut it = Cv::<K>::icf(&a).into_iter();
-                        let mut tr = vec![];
-                        // the count reported before the first step must equal the number of slices
-                        let before = it.len();
-                        let (lo, hi) = it.size_hint();
-                        assert!(lo == before && hi == Some(before));
-                        while let Some(f) = it.next() {
-                            let (lo, hi) = it.size_hint();
-                            assert!(lo == it.len() && hi == Some(lo));
-                            tr.push(list(vec![l(&K::unidx(&f.table)), n(it.len())]));
-                        }
-                        assert!(it.next().is_none());
-                        assert!(tr.len() == before);
-                        ok(list(tr))
-                    });
+                    c.emit("ic.iter_trace_ff", vec![r.enc()], move || Self::op_iter_trace_ff(&a));
                     let rs = RIC { sources: r.sources.clone(), values: r.values.table.clone() };
                     let a = rs.clone();
-                    c.emit("ic.iter_trace_sf", vec![rs.enc()], move || {
-                        let mut it = Cv::<K>::ics(&a).into_iter();
-                        let mut tr = vec![];
-                        let before = it.len();
-                        while let Some(f) = it.next() {
-                            let (lo, hi) = it.size_hint();
-                            assert!(lo == it.len() && hi == Some(lo));
-                            tr.push(list(vec![l(&K::unarr(&f.0)), n(it.len())]));
-                        }
-                        assert!(tr.len() == before);
-                        ok(list(tr))
-                    });
+                    c.emit("ic.iter_trace_sf", vec![rs.enc()], move || Self::op_iter_trace_sf(&a));
                 }
                 _ => {
                     // operation batches
@@ -228,28 +286,16 @@ where
                     let a = RICS::from_segs(&gen::segs_n(&mut c.rng, ka, 3, 3));
                     let bb = RICS::from_segs(&gen::segs_n(&mut c.rng, kb, 3, 3));
                     let (x1, a1, b1) = (x.clone(), a.clone(), bb.clone());
-                    c.emit("ic.ops_new", vec![l(&x), a.enc(), bb.enc()], move || {
-                        opt(Operations::<K, usize, usize>::new(Cv::<K>::sf(&x1), Cv::<K>::ics(&a1), Cv::<K>::ics(&b1))
-                            .map(|o| list(vec![l(&Cv::<K>::rsf(&o.x)), Self::es(&o.a), Self::es(&o.b)])))
-                    });
+                    c.emit("ic.ops_new", vec![l(&x), a.enc(), bb.enc()], move || Self::op_ops_new(&x1, &a1, &b1));
                     let (lab, sa, sb) = (c.rng.below(4), gen::list_below(&mut c.rng, 3, 3), gen::list_below(&mut c.rng, 3, 3));
                     let (sa1, sb1) = (sa.clone(), sb.clone());
-                    c.emit("ic.ops_singleton", vec![n(lab), l(&sa), l(&sb)], move || {
-                        let o = Operations::<K, usize, usize>::singleton(lab, Cv::<K>::sf(&sa1), Cv::<K>::sf(&sb1));
-                        ok(list(vec![l(&Cv::<K>::rsf(&o.x)), Self::es(&o.a), Self::es(&o.b)]))
-                    });
+                    c.emit("ic.ops_singleton", vec![n(lab), l(&sa), l(&sb)], move || Self::op_ops_singleton(lab, &sa1, &sb1));
                     if ka == k && kb == k {
                         // the per-operation view exists for the Vec backend only
                         let (x1, a1, b1) = (x.clone(), a.clone(), bb.clone());
-                        c.emit("ic.ops_iter", vec![l(&x), a.enc(), bb.enc()], move || {
-                            let o = Cv::<VecKind>::ops(&x1, &a1, &b1);
-                            ok(list(o.iter().map(|(lab, s, t)| list(vec![n(*lab), l(s), l(t)])).collect()))
-                        });
+                        c.emit("ic.ops_iter", vec![l(&x), a.enc(), bb.enc()], move || Self::op_ops_iter(&x1, &a1, &b1));
                         let a1 = a.clone();
-                        c.emit("ic.slice_iter", vec![a.enc()], move || {
-                            let ic = Cv::<VecKind>::ics(&a1);
-                            ok(list(ic.iter().map(|s| l(s)).collect()))
-                        });
+                        c.emit("ic.slice_iter", vec![a.enc()], move || Self::op_slice_iter(&a1));
                     }
                 }
             }
